@@ -725,7 +725,68 @@ def r14_15(ctx) -> None:
     ctx.check(not bad, "R14.15", fn, fn.node if fn else None, "BaseKey.kid / alg (folded on probe keys)", "; ".join(bad[:2]), "the member as it is; None when absent", construct="kid accessor")
 
 
+def r14_20(ctx) -> None:
+    """"... and fail with an invalid-key-id error if there is none": the InvalidKeyIdError of KeySet.get_by_kid reaches the caller of every consuming
+    entry.  Necessary structural condition decided here: no call site on a call-graph route from a consuming entry to get_by_kid lies in the body of a
+    `try` one of whose handlers catches InvalidKeyIdError (or an ancestor, or everything) without re-raising it unconditionally (a top-level bare
+    `raise` in the handler).  Seed C14-s: key resolution moved, as a closure, under the per-recipient `except (AssertionError, JoseError)` of
+    _perform_decrypt, whose re-raise is conditional on verify_all_recipients."""
+    from ..excflow import ExcFlow
+    eng = ctx.eng
+    P = eng.prog
+    gk = P.cls(KS).methods.get("get_by_kid")
+    if gk is None:
+        raise AnalysisError("KeySet.get_by_kid vanished")
+    xf = ExcFlow(P, eng.cg)
+    anc = set(xf.ancestors("errors:InvalidKeyIdError")) | {"*", "BaseException", "Exception"}
+    scope: List[FunctionInfo] = []
+    for en in eng.consume_entries():
+        for f in eng.cg.reachable([en]):
+            if f not in scope:
+                scope.append(f)
+    # functions of the scope from which get_by_kid is reachable
+    reach = {gk}
+    changed = True
+    while changed:
+        changed = False
+        for f in scope:
+            if f in reach:
+                continue
+            if any(c in reach for s_ in eng.cg.calls_in(f) for c in s_.callees):
+                reach.add(f)
+                changed = True
+    n = 0
+    for f in scope:
+        sites = [s_ for s_ in eng.cg.calls_in(f) if any(c in reach for c in s_.callees)]
+        if not sites:
+            continue
+        tries = [t_ for t_ in fn_nodes(f) if isinstance(t_, ast.Try)]
+        for s_ in sites:
+            n += 1
+            bad = None
+            for t_ in tries:
+                if not any(s_.node is x for st in t_.body for x in ast.walk(st)):
+                    continue
+                for h in t_.handlers:
+                    cls_ = xf._handler_classes(f, h)
+                    if not (set(cls_) & anc):
+                        continue
+                    if any(isinstance(st, ast.Raise) and st.exc is None for st in h.body):
+                        continue
+                    bad = (h, cls_)
+                    break
+                if bad:
+                    break
+            callee = sorted(c.short for c in s_.callees if c in reach)[0]
+            ctx.check(bad is None, "R14.20", f, (bad[0] if bad else s_.node), f"{f.short} :: call of {callee}",
+                      f"the call of {callee}, which can raise the InvalidKeyIdError of KeySet.get_by_kid, lies in a `try` whose handler `except {', '.join(bad[1]) if bad else ''}` "
+                      "does not unconditionally re-raise it: a token whose kid names no key of the set is not refused with the invalid-key-id error", "no swallowing handler on the route",
+                      construct=f"handler over {callee}")
+    ctx.count("R14.20", n, 24, "call sites on routes from consuming entries to KeySet.get_by_kid")
+
+
 def run(ctx) -> None:
+    ctx.guard(r14_20)
     ctx.guard(r14_15)
     from .common import forwarding_discipline
     ctx.guard(forwarding_discipline, "R14.17", ['private', 'params', 'parameters', 'value'], 8)  # "exporting it preserves every key": the export options reach each key as given (not as decided for an earlier key)
